@@ -24,9 +24,18 @@ TARGETS = [
     ("lib/libeconf_ext.c", "trim"),
     ("lib/getfilecontents.c", "check_delim"),
     ("util/econftool.c", "replace_str"),
+    # functions over the entry array of an econf_file (struct members = word slots)
+    ("lib/mergefiles.c", "has_group"),
+    ("lib/mergefiles.c", "first_entry"),
+    ("lib/mergefiles.c", "first_definition"),
+    ("lib/helpers.c", "getFromGroupList"),
+    ("lib/helpers.c", "find_key"),
 ]
 
-BUILTINS = {"strlen", "isspace", "tolower", "strchr", "strrchr", "strstr", "stpcpy", "strcpy", "memcpy", "memmove",
+# struct types whose members become word slots (one per member, in declaration order)
+RECORDS = ["file_entry", "econf_file"]
+
+BUILTINS = {"strcmp", "strlen", "isspace", "tolower", "strchr", "strrchr", "strstr", "stpcpy", "strcpy", "memcpy", "memmove",
             "malloc", "strdup", "free"}
 
 
@@ -63,10 +72,72 @@ def find_def(path, fn):
     raise Unsupported("no definition of %s in %s" % (fn, path))
 
 
-def ty_of(node):
+def clean_type(node):
     t = node.get("type", {})
     q = t.get("desugaredQualType") or t.get("qualType") or ""
-    q = q.replace("const ", "").replace("volatile ", "").replace(" const", "").strip()
+    return q.replace("const ", "").replace("volatile ", "").replace(" const", "").strip()
+
+
+def record_of(q):
+    """name of the struct type `q` (after removing `struct`), or None"""
+    q = q.replace("struct ", "").strip()
+    return q if q in RECORDS else None
+
+
+_layouts = {}
+_field_is_ptr = {}
+_enums = {}
+
+
+def enum_value(path, name):
+    """value of an enumeration constant (explicit values and implicit successors)"""
+    if path not in _enums:
+        vals = {}
+        # every enumeration constant of the translation unit that is referenced is one of econf_err
+        for d in ast_docs(path, "econf_err"):
+            if d.get("kind") != "EnumDecl":
+                continue
+            nxt = 0
+            for c in d.get("inner", []):
+                if c.get("kind") != "EnumConstantDecl":
+                    continue
+                ce = [x for x in c.get("inner", []) if x.get("kind") == "ConstantExpr"]
+                if ce:
+                    nxt = int(ce[0]["value"])
+                vals[c["name"]] = nxt
+                nxt += 1
+        _enums[path] = vals
+    if name not in _enums[path]:
+        raise Unsupported("enumeration constant %s" % name)
+    return _enums[path][name]
+
+
+
+def layout(path, rec):
+    """member names of a struct, in declaration order (one word slot each)"""
+    if (path, rec) not in _layouts:
+        fields = None
+        for d in ast_docs(path, rec):
+            if d.get("kind") == "RecordDecl" and d.get("name") == rec and d.get("completeDefinition"):
+                fields = []
+                for c in d.get("inner", []):
+                    if c.get("kind") == "FieldDecl":
+                        q = clean_type(c)
+                        if not q.endswith("*") and record_of(q):
+                            raise Unsupported("struct member of struct type: %s.%s" % (rec, c.get("name")))
+                        if "[" in q:
+                            raise Unsupported("array member: %s.%s" % (rec, c.get("name")))
+                        fields.append(c.get("name"))
+                        _field_is_ptr[(rec, c.get("name"))] = q.endswith("*")
+                break
+        if fields is None:
+            raise Unsupported("no definition of struct %s in %s" % (rec, path))
+        _layouts[(path, rec)] = fields
+    return _layouts[(path, rec)]
+
+
+def ty_of(node):
+    q = clean_type(node)
     if q.endswith("*"):
         return "ptr"
     table = {"char": "i8", "signed char": "i8", "unsigned char": "u8", "int": "i32", "unsigned int": "u32",
@@ -74,6 +145,8 @@ def ty_of(node):
              "_Bool": "bool", "bool": "bool", "size_t": "u64", "ssize_t": "i64"}
     if q in table:
         return table[q]
+    if q.startswith("enum "):
+        return "u32"          # the enumerations of libeconf have no negative constants: compatible with unsigned int
     raise Unsupported("type %r" % q)
 
 
@@ -82,15 +155,24 @@ BINOPS = {"+": "add", "-": "sub", "*": "mul", "/": "div", "%": "mod", "<": "lt",
 
 
 class FnTr:
-    def __init__(self, name, decl, done):
+    def __init__(self, name, decl, done, path=None):
         self.name = name
+        self.path = path
         self.done = done            # name -> translated Fn text pieces (for inlining)
         self.vars = {}              # decl id -> index
+        self.byval = {}             # decl id of a parameter of struct type passed by value -> struct name
         self.nparams = 0
         for c in decl.get("inner", []):
             if c.get("kind") == "ParmVarDecl":
                 self.vars[c["id"]] = len(self.vars)
                 self.nparams += 1
+                rec = record_of(clean_type(c))
+                if rec:
+                    # the callee's copy is represented by a pointer to the words of the argument: equivalent as long as the
+                    # function only reads its copy (checked below) - a copy that is never written cannot be told from the original
+                    self.byval[c["id"]] = rec
+        self.pending = []           # hoisted calls of translated functions (statements)
+        self.no_hoist = False
         self.body_node = next(c for c in decl["inner"] if c.get("kind") == "CompoundStmt")
         self.ret_ty = None
         rt = decl.get("type", {}).get("qualType", "")
@@ -102,6 +184,81 @@ class FnTr:
                     self.ret_ty = ty_of({"type": {"qualType": base}})
                 except Unsupported:
                     self.ret_ty = None
+
+    def check_byval_readonly(self, n, written=False):
+        """no assignment may reach a by-value struct parameter through member / element selection"""
+        if not isinstance(n, dict):
+            return
+        k = n.get("kind")
+        if k == "DeclRefExpr" and written and n.get("referencedDecl", {}).get("id") in self.byval:
+            raise Unsupported("the function writes to its by-value struct parameter %s" % n["referencedDecl"].get("name"))
+        kids = [c for c in n.get("inner", []) if c]
+        if k in ("BinaryOperator", "CompoundAssignOperator") and (n.get("opcode") == "=" or k == "CompoundAssignOperator"):
+            self.check_byval_readonly(kids[0], True)
+            self.check_byval_readonly(kids[1], False)
+            return
+        if k == "UnaryOperator" and n.get("opcode") in ("++", "--", "&"):
+            self.check_byval_readonly(kids[0], True)
+            return
+        if k in ("MemberExpr", "ParenExpr") or (k == "ArraySubscriptExpr"):
+            if k == "MemberExpr" and n.get("isArrow"):
+                written = False       # through a pointer: another object
+            for i, c in enumerate(kids):
+                self.check_byval_readonly(c, written and (k != "ArraySubscriptExpr" or i == 0) and k != "ImplicitCastExpr")
+            return
+        for c in kids:
+            self.check_byval_readonly(c, False)
+
+    def member_index(self, n):
+        base = self.inner(n)[0]
+        q = clean_type(base)
+        if n.get("isArrow"):
+            if not q.endswith("*"):
+                raise Unsupported("-> on %s" % q)
+            q = q[:-1].strip()
+        rec = record_of(q)
+        if rec is None:
+            raise Unsupported("member of %s" % q)
+        fields = layout(self.path, rec)
+        if n.get("name") not in fields:
+            raise Unsupported("member %s.%s" % (rec, n.get("name")))
+        return fields.index(n["name"])
+
+    def addr(self, n):
+        """pointer to the words of the struct-typed lvalue `n`"""
+        k = n.get("kind")
+        if k == "ParenExpr":
+            return self.addr(self.inner(n)[0])
+        if k == "DeclRefExpr":
+            d = n["referencedDecl"]
+            if d.get("id") in self.byval:
+                return "(.load (.var %d) .ptr)" % self.vars[d["id"]]
+            raise Unsupported("struct variable %s" % d.get("name"))
+        if k == "UnaryOperator" and n.get("opcode") == "*":
+            return self.expr(self.inner(n)[0])
+        if k == "ArraySubscriptExpr":
+            base, idx = self.inner(n)
+            rec = record_of(clean_type(n))
+            if rec is None:
+                raise Unsupported("address of an element of type %s" % clean_type(n))
+            return "(.sidx %s %s %d)" % (self.expr(base), self.expr(idx), len(layout(self.path, rec)))
+        raise Unsupported("address of %s" % k)
+
+    def guarded(self, n):
+        """an expression that is not always evaluated exactly once: no hoisted calls inside"""
+        old = self.no_hoist
+        self.no_hoist = True
+        try:
+            return self.expr(n)
+        finally:
+            self.no_hoist = old
+
+    def top(self, n):
+        """-> (statements to run first, expression): an expression evaluated exactly once where it stands"""
+        assert not self.pending
+        e = self.expr(n)
+        pre, self.pending = self.pending, []
+        return pre, e
 
     def new_temp(self):
         i = len(self.vars)
@@ -130,10 +287,20 @@ class FnTr:
                 raise Unsupported("reference to %s (not a parameter or local variable)" % d.get("name"))
             return "(.var %d)" % self.vars[d["id"]]
         if k == "UnaryOperator" and n.get("opcode") == "*":
-            return "(.deref %s)" % self.expr(self.inner(n)[0])
+            if ty_of(n) in ("i8", "u8", "bool"):      # one-byte objects live in character memory
+                return "(.deref %s)" % self.expr(self.inner(n)[0])
+            return "(.slot %s 0)" % self.expr(self.inner(n)[0])       # an object of pointer / word type
         if k == "ArraySubscriptExpr":
             base, idx = self.inner(n)
-            return "(.deref (.bin .add %s %s .ptr))" % (self.expr(base), self.expr(idx))
+            if ty_of(n) in ("i8", "u8", "bool"):
+                return "(.deref (.bin .add %s %s .ptr))" % (self.expr(base), self.expr(idx))
+            return "(.slot (.sidx %s %s 1) 0)" % (self.expr(base), self.expr(idx))
+        if k == "MemberExpr":
+            i = self.member_index(n)
+            base = self.inner(n)[0]
+            if n.get("isArrow"):
+                return "(.slot %s %d)" % (self.expr(base), i)
+            return "(.slot %s %d)" % (self.addr(base), i)
         raise Unsupported("lvalue %s" % k)
 
     def expr(self, n):
@@ -144,6 +311,8 @@ class FnTr:
             return "(.lit %s .%s)" % (lean_int(int(n["value"])), ty_of(n))
         if k == "CharacterLiteral":
             return "(.lit %s .i32)" % lean_int(int(n["value"]))
+        if k == "StringLiteral":
+            return "(.strlit %s)" % lean_bytes(c_string_bytes(n["value"]))
         if k in ("ImplicitCastExpr", "CStyleCastExpr"):
             ck = n.get("castKind")
             sub = self.inner(n)[0]
@@ -152,6 +321,8 @@ class FnTr:
             if ck == "NullToPointer":
                 return ".null"
             if ck in ("NoOp", "BitCast"):
+                return self.expr(sub)
+            if ck == "ArrayToPointerDecay" and sub.get("kind") == "StringLiteral":
                 return self.expr(sub)
             if ck in ("IntegralCast", "IntegralToBoolean", "PointerToBoolean"):
                 return "(.cast .%s %s)" % (ty_of(n), self.expr(sub))
@@ -177,10 +348,12 @@ class FnTr:
             a, b = self.inner(n)
             if op == "=":
                 return "(.assign %s %s .%s)" % (self.lval(a), self.expr(b), ty_of(a))
-            if op == "&&":
-                return "(.land %s %s)" % (self.expr(a), self.expr(b))
-            if op == "||":
-                return "(.lor %s %s)" % (self.expr(a), self.expr(b))
+            if op in ("&&", "||"):
+                ea = self.expr(a)
+                eb = self.guarded(b)
+                return "(.%s %s %s)" % ("land" if op == "&&" else "lor", ea, eb)
+            if op == "," :
+                raise Unsupported("comma operator")
             if op in BINOPS:
                 return "(.bin .%s %s %s .%s)" % (BINOPS[op], self.expr(a), self.expr(b), ty_of(n))
             raise Unsupported("binary %s" % op)
@@ -192,13 +365,25 @@ class FnTr:
             return "(.opassign .%s %s %s .%s)" % (BINOPS[op], self.lval(a), self.expr(b), ty_of(a))
         if k == "ConditionalOperator":
             c, a, b = self.inner(n)
-            return "(.cond %s %s %s)" % (self.expr(c), self.expr(a), self.expr(b))
+            return "(.cond %s %s %s)" % (self.expr(c), self.guarded(a), self.guarded(b))
         if k == "CallExpr":
             name = self.callee_name(n)
             if name in BUILTINS:
                 args = [self.expr(a) for a in self.inner(n)[1:]]
                 return "(.call \"%s\" %s)" % (name, args_term(args))
+            if name in self.done:
+                # a call of a translated function inside an expression: performed first, its result kept in a temporary.
+                # Allowed where C leaves the order of evaluation open (operands of arithmetic / comparison operators) and the
+                # operands evaluated so far have no side effects; not under && || ?: or in a loop condition.
+                if self.no_hoist:
+                    raise Unsupported("call of %s in a conditionally or repeatedly evaluated expression" % name)
+                t = self.new_temp()
+                ty = ty_of(n)
+                self.pending += self.user_call(n, "(.var %d)" % t, ty)
+                return "(.load (.var %d) .%s)" % (t, ty)
             raise Unsupported("call of %s inside an expression" % name)
+        if k == "DeclRefExpr" and n.get("referencedDecl", {}).get("kind") == "EnumConstantDecl":
+            return "(.lit %d .i32)" % enum_value(self.path, n["referencedDecl"]["name"])
         if k in ("DeclRefExpr", "ArraySubscriptExpr"):
             raise Unsupported("lvalue %s used without conversion" % k)
         raise Unsupported("expression %s" % k)
@@ -257,20 +442,22 @@ class FnTr:
                     if self.is_user_call(init[0]):
                         out += self.user_call(init[0], "(.var %d)" % idx, ty)
                     else:
-                        out.append("(.expr (.assign (.var %d) %s .%s))" % (idx, self.expr(init[0]), ty))
+                        pre, e = self.top(init[0])
+                        out += pre
+                        out.append("(.expr (.assign (.var %d) %s .%s))" % (idx, e, ty))
             return out
         if k == "IfStmt":
             parts = self.inner(n)
-            c = self.expr(parts[0])
+            pre, c = self.top(parts[0])
             a = seq(self.stmts(parts[1]))
             b = seq(self.stmts(parts[2])) if len(parts) > 2 else ".skip"
-            return ["(.ite %s %s %s)" % (c, a, b)]
+            return pre + ["(.ite %s %s %s)" % (c, a, b)]
         if k == "WhileStmt":
             c, body = self.inner(n)
-            return ["(.while %s %s)" % (self.expr(c), seq(self.stmts(body)))]
+            return ["(.while %s %s)" % (self.guarded(c), seq(self.stmts(body)))]
         if k == "DoStmt":
             body, c = self.inner(n)
-            return ["(.dowhile %s %s)" % (seq(self.stmts(body)), self.expr(c))]
+            return ["(.dowhile %s %s)" % (seq(self.stmts(body)), self.guarded(c))]
         if k == "ForStmt":
             raw = n.get("inner", [])
             if len(raw) != 5:
@@ -279,8 +466,8 @@ class FnTr:
             if condvar:
                 raise Unsupported("condition variable")
             out = self.stmts(init) if init else []
-            c = "(some %s)" % self.expr(cond) if cond else "none"
-            i = "(some %s)" % self.expr(inc) if inc else "none"
+            c = "(some %s)" % self.guarded(cond) if cond else "none"
+            i = "(some %s)" % self.guarded(inc) if inc else "none"
             out.append("(.for %s %s %s)" % (c, i, seq(self.stmts(body))))
             return out
         if k == "BreakStmt":
@@ -295,14 +482,57 @@ class FnTr:
                 t = self.new_temp()
                 ty = ty_of(parts[0])
                 return self.user_call(parts[0], "(.var %d)" % t, ty) + ["(.ret (some (.load (.var %d) .%s)))" % (t, ty)]
-            return ["(.ret (some %s))" % self.expr(parts[0])]
+            pre, e = self.top(parts[0])
+            return pre + ["(.ret (some %s))" % e]
         # expression statement
         if self.is_user_call(n):
             return self.user_call(n, None, None)
         if k == "BinaryOperator" and n.get("opcode") == "=" and self.is_user_call(self.inner(n)[1]):
             a, b = self.inner(n)
             return self.user_call(b, self.lval(a), ty_of(a))
-        return ["(.expr %s)" % self.expr(n)]
+        pre, e = self.top(n)
+        return pre + ["(.expr %s)" % e]
+
+
+def c_string_bytes(lit):
+    """bytes of a C string literal as clang prints it (with quotes and escapes)"""
+    if not (lit.startswith('"') and lit.endswith('"')):
+        raise Unsupported("string literal %r" % lit)
+    body = lit[1:-1]
+    out = []
+    i = 0
+    simple = {"n": 10, "t": 9, "r": 13, "f": 12, "v": 11, "a": 7, "b": 8, "\\": 92, '"': 34, "'": 39, "0": 0}
+    while i < len(body):
+        ch = body[i]
+        if ch != "\\":
+            out += list(ch.encode("utf-8"))
+            i += 1
+            continue
+        nx = body[i + 1]
+        if nx == "x":
+            j = i + 2
+            while j < len(body) and body[j] in "0123456789abcdefABCDEF":
+                j += 1
+            out.append(int(body[i + 2:j], 16) & 255)
+            i = j
+        elif nx in "01234567":
+            j = i + 1
+            while j < len(body) and j < i + 4 and body[j] in "01234567":
+                j += 1
+            out.append(int(body[i + 1:j], 8) & 255)
+            i = j
+        elif nx in simple:
+            out.append(simple[nx])
+            i += 2
+        else:
+            raise Unsupported("escape \\%s" % nx)
+    if 0 in out:
+        raise Unsupported("NUL inside a string literal")
+    return out
+
+
+def lean_bytes(bs):
+    return "[" + ", ".join(str(b) for b in bs) + "]"
 
 
 def lean_int(v):
@@ -357,7 +587,8 @@ def translate_all():
     for path, fn in TARGETS:
         try:
             decl = find_def(path, fn)
-            tr = FnTr(fn, decl, done)
+            tr = FnTr(fn, decl, done, path)
+            tr.check_byval_readonly(tr.body_node)
             body = seq(tr.stmts(tr.body_node))
             done[fn] = {"nlocals": len(tr.vars), "nparams": tr.nparams}
             text.append("/-- `%s` (%s) -/" % (fn, path))
@@ -371,6 +602,17 @@ def translate_all():
             text.append("def %s : Fn := { name := \"%s\", nparams := 0, nlocals := 0, body := .ret none }" % (fn, fn))
             text.append("")
             done[fn] = {"nlocals": 0, "nparams": 0}
+    # the struct layouts the translation used (member -> word slot), for the driver that builds the interpreter's memory
+    recs = []
+    for rec in RECORDS:
+        try:
+            fields = layout("lib/helpers.c", rec)
+            recs.append("(\"%s\", [%s])" % (rec, ", ".join("(\"%s\", %s)" % (f, lb(_field_is_ptr[(rec, f)])) for f in fields)))
+        except Unsupported as e:
+            errors.append("struct %s: %s" % (rec, e))
+    text.append("/-- members of the translated struct types in declaration order, with `true` for members of pointer type -/")
+    text.append("def records : List (String × List (String × Bool)) := [%s]" % ",\n  ".join(recs))
+    text.append("")
     text.append("def all : List Fn := [%s]" % ", ".join(fn for _, fn in TARGETS))
     text.append("")
     text.append("end LeafFns")
